@@ -175,8 +175,8 @@ def run(ctx, rep):
                        witness=None if ok else "the stored table is not a plain copy of the argument/preset "
                        "(copy sources: %s) — entries may be filtered or rewritten" % [pt.describe(s) for s in src],
                        nontrivial=True, key="stored/%s" % ("plain-copy" if ok else "not-plain-copy:" + i[4]))
-    if n_rebind < 2:
-        raise AnalysisError("expected the setter to rebind the table on the preset path and on the dict path; found %d" % n_rebind)
+    if n_rebind < 1:
+        raise AnalysisError("the setter does not rebind the table (anchor lost)")
     # getter returns a plain copy of the live table
     g = ctx.api("get_semantic_constraints")
     for i in pt.v(g.qual, "<ret>"):
@@ -228,7 +228,7 @@ def run(ctx, rep):
     # ---- G6
     plain, selfkeyed = memo_readers(ctx, eff, table_vars)
     if len(plain) < 2:
-        raise AnalysisError("expected >= 2 memoised readers of the table, found %s" % [m.qual for m in plain])
+        rep.note("fewer memoised readers of the table than on the confirmed tree: %s" % [m.qual for m in plain])
     mf = MemoFlow(ctx, eff, setter, rep, plain, table_vars)
     mf.run(frozenset())
     rep.floor("G6", 1)
